@@ -55,7 +55,7 @@ pub fn check(o: &FOutcome) -> Checked {
             FEv::End { id, .. } => {
                 ended.insert(*id);
             }
-            FEv::Discard { id, reason } => {
+            FEv::Discard { id, reason, .. } => {
                 discards.push((*ts, *id, reason.clone()));
             }
             FEv::Accept { id, accepted: a } => {
@@ -122,6 +122,20 @@ pub fn check(o: &FOutcome) -> Checked {
                     // that worker and would be counted as waiting for ever)
                     if waiting > bound && *live_children > 0 && deaths == 0 {
                         v.push(("worker-queue-over-limit".into(), format!("{waiting} jobs are waiting for {live_children} workers with a per-worker discard limit of {limit}"), "worker-queue-over-limit".into()));
+                    }
+                }
+                // worker-queued routers after a limit change: every worker that was handed a job since the (processed) change has applied
+                // the new limit at that moment (Oldest sheds down to it, Newest refuses the newcomer), so of the jobs dispatched since the
+                // change at most limit (+1 in the mailbox) can be waiting per live worker
+                if let (Some((limit, _)), true, false, false) = (cur_limit, limit_changed, router.factory_queued(), o.cfg.priority_queue) {
+                    let proof = o.evs.iter().any(|(bts, _, be)| matches!(be, FEv::Barrier { .. }) && *bts > change_ts && *bts < *ts);
+                    let waiting_post = dispatch
+                        .iter()
+                        .filter(|(j, (dts, sent))| *sent && *dts > change_ts && *dts < *ts && !started.contains_key(j) && !discards.iter().any(|d| d.1 == **j))
+                        .count();
+                    let bound = (limit + 1) * (*live_children).max(1);
+                    if proof && waiting_post > bound && *live_children > 0 && deaths == 0 && last_disturb < change_ts && drain_ts.is_none() && o.cfg.pool > 0 {
+                        v.push(("worker-queue-over-limit".into(), format!("{waiting_post} jobs dispatched after the discard limit was set to {limit} are waiting for {live_children} workers (per-worker limit {limit}, change at #{change_ts})"), "worker-queue-over-limit".into()));
                     }
                 }
                 // --- pool size at a quiescent point (final barrier only: 300 virtual ms after the last operation)
@@ -370,7 +384,7 @@ pub fn run(args: &Args, rep: &mut Report) {
             }
             continue;
         }
-        let cfg = gen_cfg(seed, 15);
+        let cfg = if seed % 3 == 1 { gen_cfg_settings(seed) } else { gen_cfg(seed, 15) };
         let o = run_scenario(seed, cfg);
         crate::watch_end();
         let c = check(&o);
